@@ -235,7 +235,10 @@ namespace occa {
           ->
           for (NULL; NULL; x += INC)
           ->
-          for (x = xTile; x < (xTile + TILE); x += INC)
+          for (x = xTile; x < (xTile + (TILE * (INC))); x += INC)
+
+          The in-block loop has to stop where the next block starts, which is
+          one block step [TILE or ((TILE) * (INC))] away
         */
         auto &blockDecls = ((declarationStatement*) blockForSmnt.init)->declarations;
         token_t *declVarSource = blockDecls[0].variable().source;
@@ -254,7 +257,8 @@ namespace occa {
 
         expr blockIterator(declVarSource, blockIter);
         expr iterator(*oklForSmnt.iterator);
-        expr tileSizeExpr = &tileSize;
+        // Step of the block for-loop: TILE for ++/--, ((TILE) * (INC)) for += / -=
+        expr blockStep = updateExpr.rightValue;
 
         initDecls.push_back(
           variableDeclaration(*oklForSmnt.iterator,
@@ -266,8 +270,8 @@ namespace occa {
         //       with either an [+=] or [-=] update operator
         expr bounds = expr::parens(
           (updateExpr.opType() & operatorType::addEq)
-          ? blockIterator + tileSizeExpr
-          : blockIterator - tileSizeExpr
+          ? blockIterator + blockStep
+          : blockIterator - blockStep
         );
 
         const binaryOperator_t &checkOp = (const binaryOperator_t&) checkExpr.op;
